@@ -188,11 +188,19 @@ def rule_dfs(A: Analysis, rep):
     rep.expect_min("DFS3", 2)
 
 
+RAW_DEPS_FORMS = ("raw_task['deps']", "raw_task.pop('deps', [])", "raw_task.get('deps', [])", "raw_task.pop('deps')", "raw_task.pop('deps', ())", "raw_task.get('deps', ())")
+
+
+def raw_deps_loops(A: Analysis, fi):
+    """The loop(s) over the dependency strings the user listed for the task being materialised."""
+    return [l for l in walk_local(fi.node) if isinstance(l, ast.For) and A.xtext(l.iter, fi) in RAW_DEPS_FORMS]
+
+
 def rule_dup1(A: Analysis, rep):
     fi = A.fn(TI + "_materialize_raw_task")
     g = A.cfg(fi, "plain")
     rs = [n for n in g.nodes if n.kind == "stmt" and isinstance(n.ast, ast.Raise) and n.ast.exc is not None and "DuplicateDependency" in norm(n.ast.exc)]
-    loops = [l for l in walk_local(fi.node) if isinstance(l, ast.For) and norm(l.iter) == "raw_task['deps']"]
+    loops = raw_deps_loops(A, fi)
     ok = len(rs) == 1 and len(loops) == 1
     det = "no duplicate test"
     if ok:
